@@ -29,6 +29,10 @@ def compare(impl, model):
     a, ka = split_line(impl)
     b, kb = split_line(model)
     if a != b:
+        # fault sweep (C13): element-wise, the model abstains on faults it cannot express
+        xs, ys = a.split("#"), b.split("#")
+        if "unpredicted" in ys and len(xs) == len(ys) and all(y == "unpredicted" or x == y for x, y in zip(xs, ys)):
+            return True
         return False
     if ka.get("acts", "") != kb.get("acts", ""):
         return False
@@ -105,6 +109,62 @@ def parse_meta_hex(s):
     return dict(kv.split(":") for kv in s.split("|"))
 
 
+def c13_class(label, view):
+    if view.startswith("wsees"):
+        parts = view.split(":")
+        if "alt" in parts[4:]:
+            return "c13-wal-altered-entry"
+        if parts[3] != "0":
+            return "c13-wal-corruption-accepted"
+        return "c13-wal-silent-prefix"
+    if view.startswith(("wgone", "wopen")):
+        return "c13-wal-missing-accepted"
+    if view.startswith(("sbad", "sgone")):
+        return "c13-snapshot-fallback"
+    if view.startswith("salt"):
+        return "c13-snapshot-altered"
+    if view == "mgone":
+        return "c13-manifest-gone-accepted"
+    if view.startswith("m:") and view != "m:unparsable":
+        return "c13-manifest-altered"
+    return "c13-other"
+
+
+def sweep_items(f, r):
+    """[(label, concrete, view, outcome)] of a sweep line"""
+    if f.get("faults", "-") == "-":
+        return []
+    fl = f["faults"].split("#")
+    outs = r.split("#")
+    items = []
+    for j, x in enumerate(fl):
+        lab, conc, view = x.split("@", 2)
+        items.append((lab, conc, view, outs[j] if j < len(outs) else "<missing>"))
+    return items
+
+
+def sweep_oracle(i, f, r):
+    """C13: after a single fault, strict start-up refuses or yields exactly the pre-damage collection.
+    Truncation of the newest segment is the crash case of C01 and excluded."""
+    base = f.get("base", "")
+    fails = []
+    if base.startswith("err:"):
+        return fails
+    seen = set()
+    for lab, conc, view, out in sweep_items(f, r):
+        if out == "skipped" or (lab.startswith("wal.trunc.") and lab.endswith(".newest")):
+            continue
+        if out.startswith("err:") or out == base:
+            continue
+        k = c13_class(lab, view)
+        if k in seen:
+            continue
+        seen.add(k)
+        fails.append((k, i, "fault %s (%s; the readers see %s): strict start-up SUCCEEDS with %s, pre-damage collection %s" % (
+            conc, lab, view, out[:200], base[:200])))
+    return fails
+
+
 def oracle(raw, ann, res):
     """Property oracles evaluated on the implementation's outputs only.
        c02: census after a restart == fold of the acknowledged ops (== live state before it)
@@ -146,6 +206,8 @@ def oracle(raw, ann, res):
             if out != "ok":
                 down = True
                 fails.append(("c02-restart-refused", i, "clean restart refused: %s" % out))
+        elif op == "sweep":
+            fails += sweep_oracle(i, f, r)
         elif op == "census":
             if out != show_exp(exp):
                 fails.append(("c02", i, "census %s differs from the fold of acknowledged ops %s" % (out, show_exp(exp))))
